@@ -84,14 +84,21 @@ def propOne (p1 p2 q1 q2 : Pt) (res m : Option LI) (tolOk : Pt → Pt → Bool) 
       else if !(inBox x p1 p2 && inBox x q1 q2) then
         -- `nearest_endpoint` fallback: the end point (of either segment) nearest to the *other* segment.
         -- The known class K11 is exactly "the fallback returned a nearest end point" (which may sit an ulp
-        -- outside the other bounding box); an end point that is not (within 2^-30 relative) nearest is a
-        -- different failure.
+        -- outside the other bounding box); an end point that is not nearest (up to the rounding of the four f64 distances the
+        -- code compares) is a different failure.
         (if isEndpoint x then
           let d (e : Pt) (onP : Bool) : Rat := if onP then psd2 e q1 q2 else psd2 e p1 p2
           let dmin := rmin (rmin (d p1 true) (d p2 true)) (rmin (d q1 false) (d q2 false))
           let dx := rmin (if x == p1 || x == p2 then psd2 x q1 q2 else dmin + dmin + 1)
                          (if x == q1 || x == q2 then psd2 x p1 p2 else dmin + dmin + 1)
-          if dx ≤ dmin + dmin / 1073741824 then "FAIL:proper-outside-bbox-endpoint-fallback"
+          -- `nearest_endpoint` compares four f64 distances, each computed (cross product over length) with an
+          -- absolute error of a few ulps of the coordinate magnitude M; "nearest" is therefore judged up to
+          -- T = 2^-47·M on the distances: accept when √dx ≤ √dmin + T, decided exactly on the squares.
+          let mag := [p1, p2, q1, q2].foldl (fun m c => rmax m (rmax (rabs c.x) (rabs c.y))) 0
+          let t2 := (mag * pow2 (-47)) * (mag * pow2 (-47))
+          let a := dx - dmin - t2
+          if dx ≤ dmin + dmin / 1073741824 || a ≤ 0 || a * a ≤ 4 * dmin * t2 then
+            "FAIL:proper-outside-bbox-endpoint-fallback"
           else "FAIL:proper-outside-bbox-endpoint-not-nearest"
          else "FAIL:proper-outside-bbox")
       else match m with
